@@ -73,6 +73,10 @@ def run(chk):
         w = ".".join(str(x) for x in o[:k]) + ".*"
         wm = [0, 0, 0, 0, 0, 65535, (o[0] * 256 + (o[1] if k > 1 else 0)), ((o[2] * 256) if k > 2 else 0)]
         p(w, 1, 0, ("cidr", len(w), 96 + 8 * k, hexg(wm))); chk.hist("pton:wild4")
+        # the short CIDR form of modules/iauth.h ("missing trailing bits, as in 192.168/16"): the octets given are the leading ones
+        if k >= 2:       # at least one dot: a lone number before '/' is not an IPv4 text
+            sc = ".".join(str(x) for x in o[:k]) + "/%d" % n
+            p(sc, 1, 0, ("cidr", len(sc), 96 + n, hexg(wm))); chk.hist("pton:short cidr4")
         g = [rng.choice([0, 0, 1, 0xabcd, 0xffff, rng.randrange(65536)]) for _ in range(8)]
         if is_ipv4(g) or g[0] == 0:
             g[0] = 0x2001
